@@ -8,6 +8,9 @@ array: changed rows must be exactly the rows of one non-negative label, moved by
 recorded result; a reported failure must leave positions bitwise unchanged; composites
 must not repeat a particle, must move min(n, eligible) particles absent vetoes and must
 report the number of distinct particles that really moved.
+Elements of composites are pre-selected (same target on several elements, or a later
+element only), and the failure clause is also judged under FixCom, where a vetoed
+attempt has shifted every atom.
 """
 from __future__ import annotations
 
